@@ -146,6 +146,26 @@ Fixpoint run_tracker_ops (fuel : nat) (s : tstate) (hs : list entity) (l : list 
       | 5 :: i :: rest =>          (* despawn(h) *)
           let s' := t_despawn s (href_of hs i) in
           (if N.eqb (w_len (t_w s')) (w_len (t_w s)) then 1 else 0) :: run_tracker_ops f s' hs rest
+      | 7 :: n :: v :: rest =>     (* one column batch of n rows (filler, T(v + 2i)): several ids taken in one go *)
+          let sorted := tsort tu [1; 2] in
+          let rows := map (fun i => map (fun t => (t, if N.eqb t 1 then v + 2 * i else 7)) sorted) (seqN 0 n) in
+          match w_spawn_column_batch (t_w s) sorted rows with
+          | Done (w', hs') => map to_bits hs' ++ run_tracker_ops f {| t_w := w'; t_prev := t_prev s |} (hs ++ hs') rest
+          | Panic _ => [99]
+          end
+      | 8 :: i :: v :: rest =>     (* spawn_at(h, (T(v), filler)) on a handle that is not live: the id is revived, or taken
+                                      from the entity of another generation that holds it (which goes, hidden component included) *)
+          match nthN hs i with
+          | None => 9 :: run_tracker_ops f s hs rest
+          | Some h =>
+              if w_contains (t_w s) h then 9 :: run_tracker_ops f s hs rest else
+              match w_spawn_at tu (t_w s) h {| b_key := Some [0; 1; 2]; b_items := [(1, v); (2, 7)] |} with
+              | Done (w', _) =>
+                  0 :: run_tracker_ops f {| t_w := w'; t_prev := filter (fun p => negb (N.eqb (fst p mod W32) (e_id h))) (t_prev s) |}
+                         hs rest
+              | Panic _ => [99]
+              end
+          end
       | 6 :: n :: rest =>          (* track: n reads (kind, limit) *)
           let pairs := takeN (2 * n) rest in
           let rest' := dropN (2 * n) rest in
